@@ -305,12 +305,17 @@ let run_c01 ic =
           let agree = (not odd) && List.length model = List.length obs && List.for_all2 (pentry_agrees c) model obs in
           let clauses = check_C01 f c.hashes cs obs in
           let mclauses = check_C01 f c.hashes cs model in
+          (* owners are what the configuration says (by name) or root: a numeric id other than 0 can only have come from
+             whoever owns the sources on the build host *)
+          let ids_leak = List.mem ("numeric_owner_ids_zero", false) c.structs in
           if not agree then incr n_dis;
-          if clauses <> [] || odd then incr n_fail;
-          if (not agree) || clauses <> [] || mclauses <> [] || odd then
-            report c.id agree ((if odd then ["unknown-kind"] else []) @ List.sort_uniq compare (List.map c01_clause_name clauses))
+          if clauses <> [] || odd || ids_leak then incr n_fail;
+          if (not agree) || clauses <> [] || mclauses <> [] || odd || ids_leak then
+            report c.id agree ((if odd then ["unknown-kind"] else []) @ (if ids_leak then ["numeric-owner-from-the-build-host"] else [])
+                               @ List.sort_uniq compare (List.map c01_clause_name clauses))
               (List.sort_uniq compare (List.map c01_clause_name mclauses))
-              (if agree then [] else
+              (List.filter (fun nt -> String.length nt > 7 && String.sub nt 0 7 = "member ") c.notes @
+               if agree then [] else
                  ("model payload:" :: List.map (fun e -> "  " ^ show_pentry e) model)
                  @ ("decoded payload:" :: List.map (fun e -> "  " ^ show_pentry e) obs)));
   Printf.printf "SUMMARY cases=%d disagreements=%d impl_failures=%d impl_errors=%d outside_envelope=%d\n" !n !n_dis !n_fail !n_err !n_skip
